@@ -159,7 +159,7 @@ def check_C12(prop, tier, seed):
     shutil.rmtree(rundir, ignore_errors=True)
     os.makedirs(rundir)
     ncases = 8000 if tier == "quick" else 30000
-    scale = 500 if tier == "quick" else 900
+    scale = 800 if tier == "quick" else 1200
     g = subprocess.run([binaries[cfgs[0]], "gen", "C12", "--cases", str(ncases), "--scale", str(scale), "--seed",
                         str(vc.seed_for(seed, prop, "gen", 0))], stdout=subprocess.PIPE, stderr=subprocess.PIPE)
     base = [l for l in g.stdout.decode().splitlines() if l.startswith("prop=C12")]
